@@ -1,9 +1,263 @@
 package cmplx64
 
+// Property C08, in-repo part for gonum.org/v1/gonum/internal/cmplx64: every
+// exported function against the math/cmplx definition on complex128, rounded
+// to complex64. Injected with go test -overlay.
+
 import (
+	"fmt"
+	stdmath "math"
+	"math/cmplx"
 	"testing"
 
+	"pgregory.net/rapid"
 	"verifharness/vk"
 )
 
 func TestMain(m *testing.M) { vk.Main(m, "C08") }
+
+func vkOrd32(x float32) int64 {
+	b := stdmath.Float32bits(x)
+	if b&0x80000000 != 0 {
+		return -int64(b & 0x7fffffff)
+	}
+	return int64(b)
+}
+
+func vkUlps32(a, b float32) int64 {
+	if a != a || b != b {
+		if a != a && b != b {
+			return 0
+		}
+		return stdmath.MaxInt64
+	}
+	d := vkOrd32(a) - vkOrd32(b)
+	if d < 0 {
+		d = -d
+	}
+	return d
+}
+
+const (
+	// Abs is math32.Hypot: five roundings, at most 3.25 ulp plus half an ulp of
+	// the rounded reference (see math32_test.go).
+	vkAbsUlps = 4
+	// Sqrt: Hypot (3.25u), the sum r±a of equal signs (u), the square root
+	// (halves, +u) and the quotient (0.5*b)/t (+u) give at most 4.5u per
+	// component to first order (powers of two scale exactly); accepted: 8u of
+	// the component plus four float32 subnormal steps (a subnormal imag(x) is
+	// scaled by 0.25 and 0.5 inexactly: 2(0.625/t+0.5) <= 2.25 steps, t >= 1).
+	vkSqrtU = 8
+)
+
+var vkSpecial32 = func() []float32 {
+	bits := []uint32{
+		0x00000000, 0x00000001, 0x007fffff, 0x00800000, 0x00800001, 0x01000000,
+		0x1e3ce508, 0x2edbe6ff, 0x33800000, 0x3f000000, 0x3f7fffff, 0x3f800000, 0x3f800001, 0x3fb504f3, 0x3fc00000,
+		0x40000000, 0x40400000, 0x407fffff, 0x40800000, 0x40800001, 0x40a00000, 0x4b800000, 0x5f000000, 0x5f3504f3, 0x5f800000, 0x60ad78ec, 0x7e800000,
+		0x7f000000, 0x7f3504f3, 0x7f3504f4, 0x7f7ffffe, 0x7f7fffff, 0x7f800000, 0x7fc00000, 0x7f800001,
+	}
+	var out []float32
+	for _, b := range bits {
+		out = append(out, stdmath.Float32frombits(b), stdmath.Float32frombits(b|0x80000000))
+	}
+	return out
+}()
+
+func vkFinite(x float32) bool { return x == x && x-x == 0 }
+
+// vkCheckOne returns the first violated oracle for x. The signed-zero finding
+// of Sqrt is returned separately (soft) so that the remaining values of a
+// batch are still checked behind it.
+func vkCheckOne(x complex64) (hard, soft *vk.Failure) {
+	if s := vkCheckSign(x); s != nil {
+		return vkCheckHard(x), s
+	}
+	return vkCheckHard(x), vkCheckSignedZero(x)
+}
+
+// vkCheckSign: "imag(r) has the same sign as imag(x)" for imag(x) != 0.
+func vkCheckSign(x complex64) *vk.Failure {
+	re, im := real(x), imag(x)
+	if im == 0 || !vkFinite(re) || !vkFinite(im) {
+		return nil
+	}
+	if g := Sqrt(x); imag(g) != 0 && (imag(g) < 0) != (im < 0) {
+		return vk.Failf("Sqrt-sign", "Sqrt(%v) = %v: imag(x) = %v [%#x] but the imaginary part of the result has the opposite sign (math/cmplx on complex128: %v)",
+			x, g, im, stdmath.Float32bits(im), cmplx.Sqrt(complex128(x)))
+	}
+	return nil
+}
+
+// vkCheckSignedZero: on the branch cut. For x = (-a, -0), a > 0, math/cmplx
+// (whose complex64 version this package declares to be) returns (0, -sqrt(a)):
+// "imag(r) has the same sign as imag(x)". The sign of a zero result is not
+// asserted, only this case where the results differ by 2*sqrt(a).
+func vkCheckSignedZero(x complex64) *vk.Failure {
+	re, im := real(x), imag(x)
+	if im != 0 || !vkFinite(re) || !(re < 0) || !stdmath.Signbit(float64(im)) {
+		return nil
+	}
+	g, w := Sqrt(x), cmplx.Sqrt(complex128(x))
+	if (imag(g) < 0) != (imag(w) < 0) {
+		return vk.Failf("Sqrt-branch-cut-negative-zero", "Sqrt(%v) = %v but imag(x) = %v is negative zero and math/cmplx.Sqrt gives %v: imag(r) does not have the sign of imag(x)", x, g, im, w)
+	}
+	return nil
+}
+
+func vkCheckHard(x complex64) *vk.Failure {
+	re, im := real(x), imag(x)
+	x128 := complex128(x)
+	desc := func() string {
+		return fmt.Sprintf("x=(%v [%#x], %v [%#x])", re, stdmath.Float32bits(re), im, stdmath.Float32bits(im))
+	}
+	// Conj: exact
+	if got, want := Conj(x), complex64(cmplx.Conj(x128)); !vk.SameBits32(real(got), real(want)) || !vk.SameBits32(imag(got), imag(want)) ||
+		(im == im && stdmath.Float32bits(imag(got)) != stdmath.Float32bits(im)^0x80000000) {
+		return vk.Failf("Conj", "Conj = %v, want %v (%s)", got, want, desc())
+	}
+	if got, want := IsInf(x), cmplx.IsInf(x128); got != want {
+		return vk.Failf("IsInf", "IsInf = %v (%s)", got, desc())
+	}
+	if got, want := IsNaN(x), cmplx.IsNaN(x128); got != want {
+		return vk.Failf("IsNaN", "IsNaN = %v (%s)", got, desc())
+	}
+	// Abs
+	got := Abs(x)
+	ref := cmplx.Abs(x128)
+	switch {
+	case stdmath.IsInf(ref, 1):
+		if !(got > stdmath.MaxFloat32) {
+			return vk.Failf("Abs-special", "Abs = %v, want +Inf (%s)", got, desc())
+		}
+	case ref != ref:
+		if got == got {
+			return vk.Failf("Abs-special", "Abs = %v, want NaN (%s)", got, desc())
+		}
+	default:
+		want := float32(ref)
+		if d := vkUlps32(got, want); d > vkAbsUlps || stdmath.Signbit(float64(got)) {
+			return vk.Failf("Abs", "Abs = %v [%#x], float64 value %v rounds to %v: %d ulp apart (bound %d) (%s)", got, stdmath.Float32bits(got), ref, want, d, vkAbsUlps, desc())
+		}
+		if got == 0 && ref >= stdmath.SmallestNonzeroFloat32 {
+			return vk.Failf("Abs", "Abs underflows to 0, value %v (%s)", ref, desc())
+		}
+	}
+	// Sqrt: finite arguments only (no special values are documented)
+	if !vkFinite(re) || !vkFinite(im) {
+		return nil
+	}
+	if re == 0 && im != 0 && stdmath.Abs(float64(im)) < 0x1p-126 {
+		// purely imaginary subnormal argument: the algorithm (the same as in
+		// math/cmplx) halves imag(x) before the square root, which is inexact for
+		// a subnormal; no accuracy is documented there, so it is outside the domain
+		vk.Class("cmplx64 Sqrt skipped: purely imaginary subnormal argument")
+		return nil
+	}
+	g := Sqrt(x)
+	w := cmplx.Sqrt(x128)
+	if g != g {
+		return vk.Failf("Sqrt", "Sqrt = %v for a finite argument (%s)", g, desc())
+	}
+	// "The result r is chosen so that real(r) >= 0 and imag(r) has the same sign as imag(x)."
+	if real(g) < 0 || stdmath.Signbit(float64(real(g))) {
+		return vk.Failf("Sqrt-branch", "Sqrt = %v has a negative real part (%s)", g, desc())
+	}
+	if im != 0 && imag(g) != 0 && (imag(g) < 0) != (im < 0) {
+		return nil // reported by vkCheckSign (soft, so that the rest of the batch is still checked)
+	}
+	const u = vk.Eps32
+	eta := float64(stdmath.SmallestNonzeroFloat32)
+	for c, p := range [2][2]float64{{float64(real(g)), real(w)}, {float64(imag(g)), imag(w)}} {
+		want := p[1]
+		if im == 0 && c == 1 {
+			want = stdmath.Abs(want) // imag(x) is a signed zero: see vkCheckSignedZero
+			p[0] = stdmath.Abs(p[0])
+		}
+		if d := stdmath.Abs(p[0] - want); d > vkSqrtU*u*stdmath.Abs(want)+4*eta {
+			return vk.Failf("Sqrt", "Sqrt = %v, math/cmplx gives %v: component %d differs by %.3g > %d u (%s)", g, w, c, d, vkSqrtU, desc())
+		}
+	}
+	return nil
+}
+
+type vkBatch struct {
+	Mode   int // 0: special real part with index From x all special imaginary parts; 1: 512 random values; 2: the single value (Re, Im)
+	From   int
+	Seed   uint64
+	Re, Im vk.F
+}
+
+func vkCheckBatch(c vkBatch) *vk.Failure {
+	vk.Sample("cmplx64", c)
+	if c.Mode == 2 {
+		h, s := vkCheckOne(complex(float32(c.Re), float32(c.Im)))
+		if h != nil {
+			return h
+		}
+		return s
+	}
+	if c.Mode == 0 {
+		vk.Class("cmplx64: special real part x all special imaginary parts")
+		vk.NonTrivial("cmplx64-special", c.From)
+		re := vkSpecial32[c.From%len(vkSpecial32)]
+		var soft *vk.Failure
+		for _, im := range vkSpecial32 {
+			h, s := vkCheckOne(complex(re, im))
+			if h != nil {
+				return h
+			}
+			if soft == nil {
+				soft = s
+			}
+		}
+		return soft
+	}
+	vk.Class("cmplx64: 512 random values (uniform bits / nearby exponents / special component)")
+	vk.NonTrivial("cmplx64-random", c.Seed)
+	r := vk.NewSplitMix(c.Seed)
+	var soft *vk.Failure
+	for i := 0; i < 512; i++ {
+		re := stdmath.Float32frombits(uint32(r.Uint64()))
+		var im float32
+		switch r.Intn(4) {
+		case 0:
+			im = stdmath.Float32frombits(uint32(r.Uint64()))
+		case 1:
+			im = vkSpecial32[r.Intn(len(vkSpecial32))]
+		default:
+			im = float32(float64(re) * stdmath.Ldexp(1+r.Float(), r.Intn(41)-20))
+			if r.Intn(2) == 0 {
+				im = -im
+			}
+		}
+		if r.Intn(2) == 0 {
+			re, im = im, re
+		}
+		h, s := vkCheckOne(complex(re, im))
+		if h != nil {
+			return h
+		}
+		if soft == nil {
+			soft = s
+		}
+	}
+	return soft
+}
+
+func TestVKCmplx64(t *testing.T) {
+	vk.Enumerate(t, "cmplx64-special", len(vkSpecial32), func(i int) vkBatch { return vkBatch{Mode: 0, From: i} }, vkCheckBatch)
+	vk.Run(t, "cmplx64-random", vk.Opts{Quick: 6000, Thorough: 400000, NoCrumb: true}, func(t *rapid.T) vkBatch {
+		return vkBatch{Mode: 1, Seed: rapid.Uint64().Draw(t, "seed")}
+	}, vkCheckBatch)
+	vk.Enumerate(t, "cmplx64-consts", 1, func(i int) vkBatch { return vkBatch{} }, func(vkBatch) *vk.Failure {
+		vk.Class("cmplx64 Inf, NaN")
+		if v := Inf(); !(real(v) > stdmath.MaxFloat32 && imag(v) > stdmath.MaxFloat32) || !IsInf(v) {
+			return vk.Failf("Inf", "Inf() = %v, want (+Inf+Infi)", v)
+		}
+		if v := NaN(); real(v) == real(v) || imag(v) == imag(v) || !IsNaN(v) {
+			return vk.Failf("NaN", "NaN() = %v, want (NaN+NaNi)", v)
+		}
+		return nil
+	})
+}
